@@ -15,7 +15,9 @@ RANK = {'equivalent': 1, 'complement': 2, 'incompatible': 3, 'implication': 4,
 META = {
     'rule': ('cases: the standard context stream (EXH 3x3 contains every table with 0 or 1 '
              'contingent property, equal and complementary columns) plus targeted tables (only '
-             'orthogonal pairs, all-equal columns, single column). Events: Context.relations('
+             'orthogonal pairs, all-equal columns, single column), WIDEPROPS (520-700 contingent properties) '
+             'and TILED (150-700 properties x 90-2 400 objects, columns repeated from a pool of nested, '
+             'complementary and disjoint columns: > 20 million pair x object cells). Events: Context.relations('
              'include_unary in {False, True}), str(result), result.tostring(exclude_orthogonal in '
              '{False, True}). Oracle from the shadow columns: exactly one entry per unordered pair '
              'of contingent properties, kind determined by which of both/only-left/only-right/'
@@ -200,7 +202,35 @@ def wideprops(tier, seed):
         yield gen.case('WIDEPROPS', rows, m, 'plain')
 
 
+def tiled(tier, seed):
+    """Tens of millions of (pair, object) cells: 150-700 properties over 90-2 400 objects, the columns
+    drawn with repetition from a small pool that contains nested chains, complements and disjoint
+    columns - equal columns far apart with wider and narrower ones in between, in both orders."""
+    import random as _r
+    rng = _r.Random(f'{seed}/tiled')
+    for k in range(2 if tier == 'quick' else 8):
+        if k % 2 == 0:
+            n, m = rng.randint(1900, 2400), rng.randint(150, 170)
+        else:
+            n, m = rng.randint(90, 200), rng.randint(560, 700)
+        full = (1 << n) - 1
+        pool = []
+        for _ in range(rng.randint(3, 6)):
+            c = rng.getrandbits(n) & rng.getrandbits(n)           # ~ a quarter of the objects
+            chain = [c]
+            for _ in range(rng.randint(1, 3)):
+                c = c | (rng.getrandbits(n) & rng.getrandbits(n) & rng.getrandbits(n))
+                chain.append(c)                                    # strictly wider (almost surely)
+            pool += chain
+            pool.append(full & ~chain[0])                          # a complement
+            pool.append(full & ~chain[-1] & rng.getrandbits(n))    # disjoint from the chain's top
+        cols = [rng.choice(pool) for _ in range(m)]
+        rows = [sum(((cols[j] >> i) & 1) << j for j in range(m)) for i in range(n)]
+        yield gen.case('TILED', rows, m, 'plain' if k % 2 else 'rev')
+
+
 def cases(tier, seed, spec):
+    yield from tiled(tier, seed)
     yield from wideprops(tier, seed)
     yield from targeted()
     # thousands of objects, a handful of properties (the wide shape would give millions of pairs)
